@@ -29,7 +29,9 @@ REQUIRED = {"probe_processes_with_other_hash_seed": 6, "roundtrips": 500, "id_in
             "with_chapters": 100, "with_extra_fields": 100, "non_nfkc_titles": 50}
 LEVEL_TEXT = ("Exploration: 2e4 (quick) / 1e6 (thorough) generated metabooks and request pairs run through the real "
               "serialisation and id code in long-lived processes (so that state carried between requests shows); five "
-              "algebraic laws are checked on every one, and ids are cross-checked between shard processes.")
+              "algebraic laws are checked on every one; ids come from nserve/serve make_collection_id and from "
+              "Application.new_collection, are compared pairwise over 16 wiki URL variants, and are cross-checked between "
+              "shard processes and fresh interpreters started with other string-hash seeds.")
 LEVEL_NOTE = "Trusts the generator's plain-data description as the meaning of a metabook."
 TECHNIQUE = "runtime law monitor (round trip, fixed point, id invariance/sensitivity, instance isolation) over generated metabooks in long-lived processes"
 
